@@ -24,7 +24,7 @@ const prop = "C18"
 
 func TestMain(m *testing.M) {
 	vkit.Rec(prop).SetLevel("exploration",
-		"start orders: every distinct permutation of the operation multiset {ingress x k (distinct counting conns), accept x m, close x 1-2, parent-context cancel x 0-1[, ingress-listener feeding p conns]} for k,m <= 2 (quick) / <= 3 (thorough), each operation started in its own goroutine once the previous one has finished or blocked (repeated with different subsets of the conns being ingressed together with a non-nil error); plus rapid-generated stress runs (8-64 goroutines, up to 2000 conns, random yields, several closes). Oracle at quiescence: each conn returned by exactly one accept xor closed by the listener, every close returned, no panic, accepts started after a completed close report closed; race detector on. Non-trivial = an order in which a close or cancel starts while an ingress is blocked or between an ingress and its accept; distinct = the start order.")
+		"start orders: every distinct permutation of the operation multiset {ingress x k (distinct counting conns), accept x m, close x 1-2, parent-context cancel x 0-1[, ingress-listener feeding p conns]} for k,m <= 2 (quick) / <= 3 (thorough), each operation started in its own goroutine once the previous one has finished or blocked (repeated with different subsets of the conns being ingressed together with a non-nil error); plus rapid-generated stress runs (8-64 goroutines, up to 2000 conns, random yields, several closes). Oracle at quiescence: each conn returned by exactly one accept xor closed by the listener, every close returned, no panic, accepts started after a completed close report closed; race detector on; plus 3-5 goroutines obtaining ONE sub-listener from a SplitListener at once, one ingressing, another accepting, without synchronisation added by the harness. Non-trivial = an order in which a close or cancel starts while an ingress is blocked or between an ingress and its accept; distinct = the start order.")
 	vkit.Rec(prop).Assume("only non-nil conns are ingressed (documented caller precondition)", "the harness owns start orders, not every interleaving inside the listener")
 	vkit.Main(m)
 }
